@@ -501,26 +501,14 @@ func (watchStream) Execute(c Case) {
 		polls := 0
 		image := cacheImage
 		if ob, _ := c["observe"].(string); ob == "inject" {
-			// every name the history can define (and one it cannot), each requested alone through InjectDevices; no
-			// other query touches the cache under observation
-			names := []string{"unknown.com/class=dev0"}
-			for _, q := range fresh.ListDevices() {
-				names = append(names, q)
-			}
-			for _, k := range []string{"vendor.com/class", "other.com/class", "moved.com/class", "linked.com/class"} {
-				for i := 0; i < 3; i++ {
-					names = append(names, fmt.Sprintf("%s=dev%d", k, i))
-				}
-			}
+			// what a container runtime does: one InjectDevices call naming the devices it expects (those a fresh cache
+			// lists), and nothing else - no other query touches the cache under observation
+			names := fresh.ListDevices()
 			image = func(cc *cdi.Cache) map[string]any {
-				img := map[string]any{}
-				for _, q := range names {
-					sp := &oci.Spec{}
-					_, err := cc.InjectDevices(sp, q)
-					b, _ := json.Marshal(sp)
-					img[q] = fmt.Sprint(err != nil, string(b))
-				}
-				return img
+				sp := &oci.Spec{}
+				unres, err := cc.InjectDevices(sp, names...)
+				b, _ := json.Marshal(sp)
+				return map[string]any{"unresolved": fmt.Sprint(unres), "err": err != nil, "oci": string(b)}
 			}
 			want = image(fresh)
 		}
